@@ -63,9 +63,11 @@ CHECKS = {
              "hungarian_rings.py, globe.py (Puzzles.v) compared exhaustively with the implementation over bounded parameter domains (cube n <= 5/7 all metrics, all ring tuples with "
              "sizes <= 8/12 incl. inadmissible ones, globe a,b <= 5/7) and a structural oracle written from the property text (order 4, exact layer support, per-axis commutation and "
              "disjointness, single ring cycles meeting exactly at the stated points and spacing, inverse-closedness).",
-        note="Generated puzzles: the property's 'for all parameters' is decided by kernel computation up to stated bounds (cube n <= 6 all metrics, ring sizes <= 12, globe a,b <= 6: "
-             "C16_cube_structure_upto_6, C16_rings_structure_upto_12, C16_globe_structure_upto_6 with meaning lemmas) plus general-n theorems for the left ring rotation, "
-             "_circular_shift and the globe row rotation; general-n cube structure is NOT proved (PARTIAL there). GAP: texts with extra whitespace inside cycles/JSON are outside the printer's image (covered by correspondence only); "
+        note="Generated puzzles: CUBE for EVERY n >= 2 (C16_cube_moves_structure_general: order 4, exact layer support, per-axis commutation/disjointness/coverage, through the closed "
+             "form C16_move_perm_nth of every layer turn as the geometric quarter turn of its slice); inverse-closedness of the four metric generator sets, rings and globe: kernel "
+             "computation up to stated bounds (cube metrics n <= 6, ring sizes <= 12, globe a,b <= 6: C16_cube_structure_upto_6, C16_rings_structure_upto_12, "
+             "C16_globe_structure_upto_6 with meaning lemmas) plus general theorems for the left ring rotation, _circular_shift and the globe row rotation; the RIGHT ring and the "
+             "globe f-generators for general parameters are NOT proved (PARTIAL there). GAP: texts with extra whitespace inside cycles/JSON are outside the printer's image (covered by correspondence only); "
              "non-ASCII digits and JSON outside 'lists of lists of non-negative integers' are not modelled (the model answers 'not modelled' and the check fails closed). "
              "Trusted: Coq kernel + vm_compute, Gap.v/Puzzles.v (validated), Python re/json/str semantics as modelled.",
         technique="Coq proof (GAP loader round trip, unbounded) + model/implementation correspondence on all shipped files and bounded parameter domains + structural oracle",
